@@ -18,7 +18,7 @@ LEVEL_NOTE = ("Trusted: the seam interposes the libc entry points listed in DESI
 RULE = ("case = generated project x configuration point; one fault-free --check run plus one run per sampled/enumerated "
         "(operation k, action) with action in {fail errno, short, eintr, kill_before, kill_after, sig_before, sig_after}. "
         "Non-trivial = run with a fired fault or a distinct configuration point; distinct = (world, k, action, errno).")
-PROBES = ["non_utf8_source", "old_leftovers", "other_file_system", "odd_argv", "stdout_closed", "tmpdir_missing", "lock_corrupt", "lock_valid", "cache_off", "error_config", "no_missing_refs", "fault_fired", "killed", "signalled"]
+PROBES = ["git_work_tree", "non_utf8_source", "old_leftovers", "other_file_system", "odd_argv", "stdout_closed", "tmpdir_missing", "lock_corrupt", "lock_valid", "cache_off", "error_config", "no_missing_refs", "fault_fired", "killed", "signalled"]
 ASSUMPTIONS = ["stat/open-for-read/readdir are not modifications"]
 DEADLINE = {"quick": 200, "thorough": 3000}
 
@@ -69,6 +69,9 @@ def gen(rng):
         bad = rng.choice([b"\xe9", b"\xff", b"\xc3\x28"])
         wm["extra"]["proj/src/legacy_enc.rs"] = {"t": "f", "mode": 0o644, "data": b"// caf" + bad + b" legacy\nfn l() { info!(\"[ref: 7] latin " + bad + b"\"); }\n"}
         tags.append("non_utf8_source")
+    if rng.random() < 0.08:
+        wm["git"] = True        # the project is a git work tree with a stale index (scen.git_work_tree)
+        tags.append("git_work_tree")
     err = rng.random() < 0.15
     if err:
         tags.append("error_config")
